@@ -501,6 +501,25 @@ def sample_measures(T, rp, rng, n):
         if t % 4 == 3:  # prescribed singular values with a chosen condition number
             q1, q2 = rot(rng.integers(2**31)), rot(rng.integers(2**31))
             A = q1 @ np.diag([1.0, 10.0 ** -rng.integers(0, 3), 10.0 ** -rng.integers(0, 6)]) @ q2.T * rng.choice([1.0, 1e3])
+        if t % 12 in (5, 9, 11):
+            # NEAR-SPECIAL inputs: a structured matrix plus a perturbation of relative size delta that is far above
+            # rounding and far below anything a random draw produces (an orthogonal matrix times a tiny strain, a
+            # symmetric stretch times a tiny rotation, a diagonal matrix with tiny couplings).  The laws hold for them
+            # as for every matrix - to rounding, not to the size of the perturbation.
+            delta = (1e-4, 1e-6, 3e-7, 1e-8)[(t // 12) % 4]
+            q1 = rot(rng.integers(2**31))
+            sym = rng.normal(size=(3, 3))
+            sym = (sym + sym.T) / 2
+            if t % 12 == 5:
+                A = q1 @ (np.eye(3) + delta * sym)
+            elif t % 12 == 9:
+                w = rng.normal(size=3)
+                w = delta * w / np.linalg.norm(w)
+                W = np.array([[0, -w[2], w[1]], [w[2], 0, -w[0]], [-w[1], w[0], 0]])
+                V = q1 @ np.diag([2.0, 1.0, 0.5]) @ q1.T
+                A = V @ (np.eye(3) + W + W @ W / 2)
+            else:
+                A = np.diag([1.5, -0.75, 0.25]) + delta * rng.normal(size=(3, 3))
         lam = np.linalg.eigvals(A)
         el = (lam.sum().real, (lam[0] * lam[1] + lam[1] * lam[2] + lam[2] * lam[0]).real, (lam[0] * lam[1] * lam[2]).real)
         na = max(1.0, float(np.abs(A).max()))
